@@ -2,17 +2,17 @@
 CFG = dict(
     bins=["c11"],
     imports=["Run.RunC11"],
-    rule="single series: exhaustive over the alphabet {-1, 0, 2, null} up to length 5 (thorough 7) and over the quarter "
-         "alphabet {-0.75, 0.25, 2.5, null} up to length 3 (4) + 300 (3000) structured random series of length 1..40 "
+    rule="single series: exhaustive over the alphabet {-1, 0, 2, null} up to length 5 (thorough 6) and over the quarter "
+         "alphabet {-0.75, 0.25, 2.5, null} up to length 3 (4) + 300 (2000) structured random series of length 1..40 "
          "(integers or dyadic k/4; uniform / 3-letter alphabet with heavy ties / monotone up / down / constant / random walk) "
          "x 9 null patterns; every function is called for EVERY min_periods 0..=len+1; element types f64, f32, Option<f64>, "
          "i32, i64, Option<i32>, bool, Option<bool>; sources: owned Vec, borrowed titer(), option view opt(), VecDeque "
          "(wrapped ring; titer and owned), ndarray (owned and reversed view), plain std iterator; permuted copies (reverse, "
          "rotate, shuffle) of the implementation's input against the model on the original for the symmetric functions; "
          "two series (vcov, vcorr_pearson with f64/f32/Option<f64> output, the Vec1View-level vcorr wrapper with omitted "
-         "min_periods): all pairs over the alphabet up to length 2 (3), x {0,2,null} at length 3 (4), random pairs that are "
+         "min_periods): all pairs over the alphabet up to length 2 (3), x {0,2,null} at length 3, random pairs that are "
          "independent / affine images (|r| = 1) / constant second series / of unequal length, independent null patterns; "
-         "masked sum / mean: all (series, mask) over {-1,0,2,null} x {true,false,null} up to length 3 (4) + random, masks of "
+         "masked sum / mean: all (series, mask) over {-1,0,2,null} x {true,false,null} up to length 3 ({-1,2,null} x {true,false,null} at length 4) + random, masks of "
          "bool, Option<bool>, i32 0/1, f64 0/1/NaN, unequal lengths; booleans: all Option<bool> series up to length 5 (7) + "
          "random. Counts, indices, extrema, sums, first/last are compared exactly; mean/var/std/cov/masked mean within 1e-9 "
          "and skew/kurt/corr within 1e-7 of the model evaluated in Coq's binary64 (f32 output 1e-6), nullness exact. "
